@@ -22,7 +22,10 @@
              | the harness's own copy of the published table: list of (key, 0 all/1 white/2 black, values)
    codes: 1 = model <> implementation
           2 = property oracle fails on the observation
-              (FIND: with distinct keys the observed value is the value of the tag with that key,
+              (WAY/WSEQ: the LITERAL published rule, Spec.published_polygonb over an optional
+               lookup: a listed key present with an EMPTY value counts.  The code skips it: known
+               finding class "empty-value-on-listed-key", assigned by the harness from the input.
+               FIND: with distinct keys the observed value is the value of the tag with that key,
                "" if there is none.
                WAY/REL: the observed answer is not the declarative spec's answer for that tag set;
                only evaluated when the keys are distinct, a panic always fails it.
@@ -82,7 +85,7 @@ Definition check_way : P (list Z) :=
   let j1 := obs_code (way_polygon_wn RT nodes ts) =? obs in
   let j2 :=
     (obs <? 2) &&
-    (if nodupb (keys ts) then obs =? b2z (spec_polygonb (map wid nodes) (lookup ts)) else true) in
+    (if nodupb (keys ts) then obs =? b2z (published_polygonb (map wid nodes) (lookup_opt ts)) else true) in
   ret (code_if j1 1 ++ code_if j2 2)%list.
 
 (* ---- WSEQ: several calls on one Way, edited in place in between ---- *)
@@ -93,7 +96,7 @@ Definition step_judgements (st : list waynode * tags * Z) : bool * bool :=
   let '(nodes, ts, obs) := st in
   (obs_code (way_polygon_wn RT nodes ts) =? obs,
    (obs <? 2) &&
-   (if nodupb (keys ts) then obs =? b2z (spec_polygonb (map wid nodes) (lookup ts)) else true)).
+   (if nodupb (keys ts) then obs =? b2z (published_polygonb (map wid nodes) (lookup_opt ts)) else true)).
 
 Definition check_wseq : P (list Z) :=
   steps <- plist pstep ;;
